@@ -98,6 +98,8 @@ structure Hist where
   shrunk : Bool := false       -- a deletion or head compaction happened (a series may have left the head)
   armed : Bool := false        -- … and a restart happened afterwards (`lastSeriesID` restored from a snapshot)
   lateBorn : List Nat := []    -- series first appended to while `armed`
+  forked : Bool := false
+  reopenAfterFork : Bool := false  -- copy B: started by WAL replay, then shut down and started from its snapshot
 
 def Hist.covers (h : Hist) (x : Nat × Smp) : Bool :=
   h.dels.any fun d => (match d.1 with | none => true | some j => j == x.1) && decide (d.2.1 ≤ x.2.t ∧ x.2.t ≤ d.2.2)
@@ -213,7 +215,11 @@ def judgeLines (ooo : Bool) (pairs : List (String × String)) : Option String :=
                 -- down cleanly (snapshot) and opened from that snapshot lacks samples that are not
                 -- the newest of their series (the ones held in m-mapped chunks); nothing else differs
                 let newest : Nat → Option Smp := fun i => (ra.find? (fun (p : Nat × List Smp) => p.1 == i)).bind fun p => p.2.getLast?
-                if subRows rb ra ∧ !(minus ra rb).isEmpty ∧ (minus ra rb).all (fun (x : Nat × Smp) => newest x.1 != some x.2)
+                let fullQ := match f with
+                  | ["q", qa, qb] => qa.toInt? == some MinI64 && qb.toInt? == some MaxI64
+                  | _ => false
+                if h.reopenAfterFork ∧ subRows rb ra ∧ !(minus ra rb).isEmpty ∧
+                    (!fullQ ∨ (minus ra rb).all (fun (x : Nat × Smp) => newest x.1 != some x.2))
                 then "b-lost-older-samples" else neKind h "cont" "-" ra rb
               | _, _ => "other"
             some s!"violation cont-differs kind={kind} step={k} op=`{opPart op}` a={x} b={y}"
@@ -229,7 +235,10 @@ def judgeLines (ooo : Bool) (pairs : List (String × String)) : Option String :=
           | some (.app i _ _) =>
             if h.seen.contains i then h
             else { h with seen := i :: h.seen, lateBorn := if h.armed then i :: h.lateBorn else h.lateBorn }
-          | _ => if restart ∧ h.shrunk then { h with armed := true }
+          | _ =>
+            let h := if f.head? = some "fork" then { h with forked := true }
+                     else if f.head? = some "reopen" ∧ h.forked then { h with reopenAfterFork := true } else h
+            if restart ∧ h.shrunk then { h with armed := true }
                  else if f.head? = some "cooo" then { h with shrunk := true } else h
         go h' (k + 1) rest
   go {} 0 pairs
